@@ -261,7 +261,7 @@ def step (s : State) : Action → Option State
         | .beyond b => some (setThread s t { th with pc := .needGrow sz b })
         | .panic => some (setThread s t { th with pc := .panicked .bounds })
         | .slice r =>
-          some { setThread s t { th with pc := .idle } with grants := ⟨t, th.op, r⟩ :: s.grants }
+          some { setThread s t {} with grants := ⟨t, th.op, r⟩ :: s.grants }
       | _ => none
     | none => none
   | .grow t =>
@@ -316,6 +316,27 @@ inductive ReachNW (s0 : State) : State → Prop where
 inductive Reach (s0 : State) : State → Prop where
   | init : Reach s0 s0
   | step {s s' : State} (a : Action) : Reach s0 s → step s a = some s' → Reach s0 s'
+
+/-- Executable form of `NoCarry`. -/
+def noCarryB (s : State) : Action → Bool
+  | .add t =>
+    match s.threads[t]? with
+    | some th =>
+      match th.pc with
+      | .toAdd sz => decide ((pi s).toNat + sz.toNat < 2 ^ 32)
+      | _ => true
+    | none => true
+  | _ => true
+
+/-- `run`, refusing schedules in which an atomic add carries. -/
+def runNW (s : State) : List Action → Option State
+  | [] => some s
+  | a :: as =>
+    if noCarryB s a then
+      match step s a with
+      | some s' => runNW s' as
+      | none => none
+    else none
 
 /-! ## AllocateAligned: the aligned sub-slice -/
 
